@@ -91,6 +91,16 @@ class Partial(object):
         self.notes = {}
         self.errors = []  # harness-level problems (make the run inconclusive)
         self.truncated = 0
+        self.bulk_distinct = 0  # cases distinct *by construction* (enumerations), counted not hashed
+
+    def bulk(self, n, nontrivial_n, klass=None, sample=None):
+        """n enumerated cases of which nontrivial_n are non-trivial; distinct by construction"""
+        self.evaluations += n
+        self.bulk_distinct += nontrivial_n
+        if klass is not None:
+            self.classes[klass] += n
+        if sample is not None and len(self.samples) < MAX_SAMPLES:
+            self.samples.append(sample)
 
     # -- recording ------------------------------------------------------------
     def case(self, descriptor, nontrivial=True, klass=None, sample=None):
@@ -133,6 +143,7 @@ class Partial(object):
                 "notes": self.notes,
                 "errors": self.errors,
                 "truncated": self.truncated,
+                "bulk_distinct": self.bulk_distinct,
             }
         )
 
@@ -163,6 +174,7 @@ class Partial(object):
                 self.notes.setdefault(k, v)
         self.errors.extend(d["errors"])
         self.truncated += d["truncated"]
+        self.bulk_distinct += d.get("bulk_distinct", 0)
 
 
 # ------------------------------------------------------------------------------------------
@@ -296,6 +308,14 @@ def main(module):
     return conclude(module, ctx, P, inconclusive, t0)
 
 
+def say(*a):
+    try:
+        print(*a)
+        sys.stdout.flush()
+    except BrokenPipeError:
+        pass
+
+
 def conclude(module, ctx, P, inconclusive, t0):
     pid = module.PID
     open_f, fixed_f = load_findings(pid)
@@ -315,8 +335,9 @@ def conclude(module, ctx, P, inconclusive, t0):
     if P.errors:
         inconclusive.append("%d harness error(s): %s" % (len(P.errors), P.errors[0][:600]))
     min_cases = getattr(module, "MIN_DISTINCT", 2)
-    if len(P.distinct) < min_cases:
-        inconclusive.append("only %d distinct non-trivial cases (< %d)" % (len(P.distinct), min_cases))
+    n_distinct = len(P.distinct) + P.bulk_distinct
+    if n_distinct < min_cases:
+        inconclusive.append("only %d distinct non-trivial cases (< %d)" % (n_distinct, min_cases))
 
     replay_dir = os.path.join(VERIF_ROOT, "replays")
     replay_paths = []
@@ -335,7 +356,7 @@ def conclude(module, ctx, P, inconclusive, t0):
 
     coverage = {
         "evaluations": P.evaluations,
-        "distinct_nontrivial": len(P.distinct),
+        "distinct_nontrivial": n_distinct,
         "rule": module.RULE,
         "samples": P.samples[:MAX_SAMPLES],
         "monitor_evaluations": dict(P.monitors),
@@ -366,17 +387,17 @@ def conclude(module, ctx, P, inconclusive, t0):
     with open(os.path.join(VERIF_ROOT, "evidence", pid + ".json"), "w") as f:
         f.write(jdump(ev, indent=1, sort_keys=True) + "\n")
 
-    print("%s tier=%s seed=%d: %d cases (%d distinct non-trivial), monitors=%s, %.1fs" % (
-        pid, ctx.tier, ctx.seed, P.evaluations, len(P.distinct), dict(P.monitors), time.time() - t0))
+    say("%s tier=%s seed=%d: %d cases (%d distinct non-trivial), monitors=%s, %.1fs" % (
+        pid, ctx.tier, ctx.seed, P.evaluations, n_distinct, dict(P.monitors), time.time() - t0))
     for k, v in sorted(known_seen.items()):
-        print("KNOWN-FINDING: property=%s %s — %s (observed %d times)" % (pid, k, v["what"], v["count"]))
+        say("KNOWN-FINDING: property=%s %s — %s (observed %d times)" % (pid, k, v["what"], v["count"]))
     if violations:
         for key, rp, dev in replay_paths:
-            print("  deviation %s x%d: %s" % (key, dev["count"], dev["what"]))
-            print("VIOLATION property=%s replay=%s" % (pid, rp))
+            say("  deviation %s x%d: %s" % (key, dev["count"], dev["what"]))
+            say("VIOLATION property=%s replay=%s" % (pid, rp))
         return 1
     if inconclusive:
         for r in inconclusive:
-            print("INCONCLUSIVE property=%s %s" % (pid, r))
+            say("INCONCLUSIVE property=%s %s" % (pid, r))
         return 2
     return 0
